@@ -6,8 +6,8 @@
 set -u
 export GOFLAGS=-mod=mod GOPROXY=off GOSUMDB=off GOTOOLCHAIN=local
 ID=$1; K=$2; PROPS=${3:-$ID}
-OUT=/tmp/seed-$ID-out/$K; WT=/tmp/seed-$ID
-DEST=/verif/seeded/$ID-$K
+PFX=${SEEDPFX:-seed}; OUT=/tmp/$PFX-$ID-out/$K; WT=/tmp/$PFX-$ID
+DEST=/verif/seeded/$ID-$K${SEEDSUF:-}
 [ -f "$OUT/patch.diff" ] || { echo "no patch in $OUT"; exit 2; }
 cd "$WT" && git checkout -q -- . && git clean -qfd
 # place demo files
